@@ -1,4 +1,5 @@
 import DaliVerif.Proofs.DevSeq
+import DaliVerif.Proofs.DevSeqBacked
 /-!
 # C13 — control-device sequences move multi-byte settings and scan results intact
 
@@ -105,6 +106,24 @@ theorem faults_benign_autodiscover (addrs : List Nat) (tr : List (Cmd × Resp)) 
     ((out = .error .ValueError) ∨
       (∃ log tr0 r, out = .ok log ∧ tr = tr0 ++ [(.stopQuiescentMode, r)] ∧ ∀ e ∈ log, Backed tr e)) :=
   autodiscover_faults addrs tr out h
+
+/-- **Faults, discovery: a missing or garbled answer is a skip** — against *any*
+responder, every entry `((a, i), t)` the scan records is backed, in this very
+exchange, by a clean byte answer to each of the four queries it depends on:
+QUERY DEVICE STATUS `a` (showing neither "short address is MASK" nor "reset
+state"), QUERY NUMBER OF INSTANCES `a`, QUERY INSTANCE ENABLED `(a, i)` and
+QUERY INSTANCE TYPE `(a, i)` (= `t`).  So silence or a framing error on the
+answer to QUERY INSTANCE ENABLED (or to any of the others) can only lead to
+that instance / device being skipped, never to an entry. -/
+theorem faults_skip_autodiscover (addrs : List Nat) (tr : List (Cmd × Resp)) (out : PyRes TypeLog)
+    (h : Out (autodiscover addrs) tr out) :
+    (out = .error .ValueError) ∨
+    (∃ log, out = .ok log ∧ ∀ e ∈ log,
+      ((∃ en, (Cmd.queryInstanceEnabled e.1.1 e.1.2, Resp.byte en) ∈ tr) ∧
+        (Cmd.queryInstanceType e.1.1 e.1.2, Resp.byte e.2) ∈ tr) ∧
+      (∃ st, (Cmd.queryDeviceStatus e.1.1, Resp.byte st) ∈ tr ∧ ¬ (st / 4 % 2 = 1 ∨ st / 64 % 2 = 1)) ∧
+      (∃ n, (Cmd.queryNumberOfInstances e.1.1, Resp.byte n) ∈ tr)) :=
+  autodiscover_faults2 addrs tr out h
 
 /-- **Faults, input value** — against any responder: a value is returned only
 if *every* answer was a clean backward frame; any silence or framing error at
